@@ -174,8 +174,123 @@ fn exhaustive(args: &Args, rep: &mut Report, nmax: u32, full_dims: bool) {
     rep.add("exhaustive_cases_total", idx);
 }
 
+/// Reader-side large files without moving data: the movie header is real, the media data is a
+/// virtual tail. One chunk holds N samples whose total exceeds 4 GiB, with a constant size or
+/// a size table; ids on both sides of the 2^32 boundary inside the chunk are checked.
+fn virtual_large(args: &Args, rep: &mut Report) {
+    use crate::refenc::*;
+    use crate::streams::VirtualTail;
+    let mut k = 0u64;
+    for constant in [true, false] {
+        for co64_first_chunk_high in [false, true] {
+            for (size, n) in [(1u32 << 20, 5000u32), (1 << 16, 70_000), ((1 << 20) + 1, 4100), (u32::MAX, 3)] {
+                k += 1;
+                if !args.mine(k) {
+                    continue;
+                }
+                let id = format!("virtual:{}:{}:{}:{}", constant, co64_first_chunk_high, size, n);
+                if !args.want(&id) {
+                    continue;
+                }
+                rep.begin(&id);
+                // sizes: constant, or a table alternating size / size-1 (size >= 2)
+                let sizes: Vec<u32> = if constant { vec![] } else { (0..n).map(|i| if i % 2 == 0 { size } else { size - 1 }).collect() };
+                let size_of = |i: u32| -> u64 { if constant { size as u64 } else { sizes[i as usize] as u64 } };
+                let total_payload: u64 = (0..n).map(size_of).sum();
+                let make = |chunk_off: u64| -> Vec<BoxT> {
+                    let mut stbl = BoxT::new(b"stbl");
+                    stbl.push(enc_stsd(0, 0, vec![enc_tx3g(&Tx3gF::default())]));
+                    stbl.push(enc_stts(0, 0, &[(n, 10)]));
+                    stbl.push(enc_stsc(0, 0, &[(1, n, 1)]));
+                    if constant {
+                        stbl.push(enc_stsz(0, 0, size, n, &[]));
+                    } else {
+                        stbl.push(enc_stsz(0, 0, 0, n, &sizes));
+                    }
+                    stbl.push(enc_co64(0, 0, &[chunk_off]));
+                    let minf = BoxT::container(b"minf", vec![enc_dinf_default(), stbl]);
+                    let mdia = BoxT::container(b"mdia", vec![enc_mdhd(&MdhdF { timescale: 1000, duration: n as u64 * 10, ..Default::default() }), enc_hdlr(&HdlrF { handler: *b"sbtl", name: b"v".to_vec(), ..Default::default() }), minf]);
+                    let trak = BoxT::container(b"trak", vec![enc_tkhd(&TkhdF { track_id: 1, duration: n as u64 * 10, ..Default::default() }), mdia]);
+                    let moov = BoxT::container(b"moov", vec![enc_mvhd(&MvhdF { duration: n as u64 * 10, next_track_id: 2, ..Default::default() }), trak]);
+                    let mut mdat = BoxT::new(b"mdat");
+                    mdat.large = true;
+                    vec![enc_ftyp(&FtypF { major: *b"isom", minor: 0, brands: vec![] }), moov, mdat]
+                };
+                let head0 = serialize(&make(0)).bytes;
+                let pad: u64 = if co64_first_chunk_high { (1u64 << 32) + 12345 } else { 0 };
+                let chunk_off = head0.len() as u64 + pad;
+                let mut head = serialize(&make(chunk_off)).bytes;
+                // patch the mdat largesize (last 8 bytes of the head) to cover the virtual payload
+                let total = head.len() as u64 + pad + total_payload;
+                let l = head.len();
+                head[l - 8..].copy_from_slice(&(16 + pad + total_payload).to_be_bytes());
+                let head = Rc::new(head);
+                let vt = VirtualTail { head: head.clone(), total, seed: 0xF00D ^ k, pos: 0 };
+                let probe = VirtualTail { head: head.clone(), total, seed: 0xF00D ^ k, pos: 0 };
+                match crate::panicmon::catch(|| mp4::Mp4Reader::read_header(vt, total)) {
+                    Ok(Ok(mut mp4)) => {
+                        // ids around the 4 GiB mark inside the chunk, and the ends
+                        let mut ids: Vec<u32> = vec![1, 2, n / 2, n - 1, n];
+                        let mut acc = 0u64;
+                        for i in 0..n {
+                            if acc >= (1u64 << 32) {
+                                for d in [-2i64, -1, 0, 1, 2] {
+                                    let v = i as i64 + 1 + d;
+                                    if v >= 1 && v <= n as i64 {
+                                        ids.push(v as u32);
+                                    }
+                                }
+                                break;
+                            }
+                            acc += size_of(i);
+                        }
+                        ids.sort();
+                        ids.dedup();
+                        for sid in ids {
+                            let want_off = chunk_off + (0..sid - 1).map(size_of).sum::<u64>();
+                            match crate::panicmon::catch(|| mp4.sample_offset(1, sid)) {
+                                Ok(Ok(o)) if o == want_off => {}
+                                other => {
+                                    rep.fail("C03", &id, "sample_offset", json!({"sample": sid, "want": want_off, "got": format!("{:?}", other.map(|r| r.map_err(|e| e.to_string())).map_err(|p| p.msg))}));
+                                    break;
+                                }
+                            }
+                            // read the bytes only for moderately sized samples
+                            let sz = size_of(sid - 1);
+                            if sz <= (2 << 20) {
+                                match crate::panicmon::catch(|| mp4.read_sample(1, sid)) {
+                                    Ok(Ok(Some(s))) => {
+                                        let ok = s.bytes.len() as u64 == sz
+                                            && s.start_time == (sid as u64 - 1) * 10
+                                            && s.duration == 10
+                                            && [0u64, 1, sz / 2, sz - 1].iter().all(|p| s.bytes[*p as usize] == probe.byte_at(want_off + p));
+                                        if !ok {
+                                            rep.fail("C03", &id, "sample_bytes", json!({"sample": sid, "len": s.bytes.len(), "want_len": sz, "start": s.start_time}));
+                                            break;
+                                        }
+                                    }
+                                    other => {
+                                        rep.fail("C03", &id, "sample_read", json!({"sample": sid, "got": format!("{:?}", other.map(|r| r.map(|o| o.map(|s| s.bytes.len())).map_err(|e| e.to_string())).map_err(|p| p.msg))}));
+                                        break;
+                                    }
+                                }
+                            }
+                            rep.add("virtual_large_samples_checked", 1);
+                        }
+                    }
+                    Ok(Err(e)) => rep.fail("C03", &id, "reader_open_error", json!({"err": e.to_string()})),
+                    Err(p) => rep.fail("C03", &id, "reader_panic", json!({"site": p.site(), "msg": p.msg})),
+                }
+                rep.cover_nt(hash_str(&format!("virtual|const{}|high{}|{}", constant, co64_first_chunk_high, size)));
+                rep.end();
+            }
+        }
+    }
+}
+
 pub fn run(args: &Args) -> i32 {
     let mut rep = Report::new(args, true);
+    virtual_large(args, &mut rep);
     exhaustive(args, &mut rep, if args.thorough() { 7 } else { 6 }, args.thorough());
     if rep.too_many_fails() {
         return rep.finish();
